@@ -245,9 +245,13 @@ class StreamSession:
             except (pa.ArrowInvalid, OSError, StopIteration):
                 return
         _MAX_DRAIN = 10_000
-        with contextlib.suppress(StopIteration, RpcError, pa.ArrowInvalid, OSError):
+        with contextlib.suppress(StopIteration, pa.ArrowInvalid, OSError):
             for _ in range(_MAX_DRAIN):
-                _read_batch_with_log_check(self._output_reader, self._on_log, self._external_config, shm=self._shm)
+                # An error batch is not the end of the output stream: keep
+                # reading up to its EOS marker, or the leftover bytes are taken
+                # for the start of the next call's answer.
+                with contextlib.suppress(RpcError):
+                    _read_batch_with_log_check(self._output_reader, self._on_log, self._external_config, shm=self._shm)
 
     def cancel(self) -> None:
         """Signal the server to stop processing and discard pending work.
@@ -283,9 +287,13 @@ class StreamSession:
             except (pa.ArrowInvalid, OSError, StopIteration):
                 return
         _MAX_DRAIN = 10_000
-        with contextlib.suppress(StopIteration, RpcError, pa.ArrowInvalid, OSError):
+        with contextlib.suppress(StopIteration, pa.ArrowInvalid, OSError):
             for _ in range(_MAX_DRAIN):
-                _read_batch_with_log_check(self._output_reader, self._on_log, self._external_config, shm=self._shm)
+                # An error batch is not the end of the output stream: keep
+                # reading up to its EOS marker, or the leftover bytes are taken
+                # for the start of the next call's answer.
+                with contextlib.suppress(RpcError):
+                    _read_batch_with_log_check(self._output_reader, self._on_log, self._external_config, shm=self._shm)
 
     def __enter__(self) -> StreamSession:
         """Enter context manager."""
